@@ -174,3 +174,39 @@ def register_listener(R):
                   f"{W}.n", f"{W}.pending", f"{W}.rest"],
         tags="C05",
     )
+    register_close(R)
+
+
+def register_close(R):
+    """C14 for the asyncio datagram adapters: close() has been requested from the asyncio transport on every exit of aclose(),
+    also when the wait for connection_lost() is cancelled."""
+    LS = "easynetwork/lowlevel/api_async/backend/_asyncio/datagram/listener.py"
+    R.module(EP)
+    R.shape("DatagramEndpointProtocolC", cls="DatagramEndpointProtocol", fields={"__closed": "FutureModel"})
+    R.inline_fn("DatagramEndpointProtocol._get_close_waiter", "DatagramEndpoint.close_nowait")
+    R.shape("DatagramEndpointC", cls="DatagramEndpoint", fields={"__transport": "AsyncioDatagramTransportModel", "__protocol": "DatagramEndpointProtocolC"})
+    fut = "self.__protocol._DatagramEndpointProtocol__closed"
+    closed = [("the-asyncio-transport-has-been-asked-to-close", "self.__transport.closing", "C14")]
+    R.contract(
+        "DatagramEndpoint.aclose", self_shape="DatagramEndpointC",
+        ensures=closed + [("returns-only-once-the-connection-is-really-gone", f"not {fut}.pending", "C14")],
+        raises={"BaseException": closed},
+        modifies=["self.__transport.closing", f"{fut}.pending", f"{fut}.result_set", f"{fut}.exception_set", f"{fut}.value", "ghost.futures_awaited"],
+        env={"rely_havoc": [f"{fut}.pending", f"{fut}.result_set", f"{fut}.exception_set"], "rely_inv": ["implies(pre(self.__transport.closing), self.__transport.closing)"]},
+        tags="C14",
+    )
+    R.module(LS)
+    R.shape("DatagramListenerProtocolC", cls="DatagramListenerProtocol", fields={"__closed": "FutureModel"})
+    R.inline_fn("DatagramListenerProtocol._get_close_waiter")
+    R.shape("DatagramListenerSocketAdapterC", cls="DatagramListenerSocketAdapter",
+            fields={"__backend": "AsyncBackend", "__transport": "AsyncioDatagramTransportModel", "__protocol": "DatagramListenerProtocolC", "__closing": "bool"})
+    futl = "self.__protocol._DatagramListenerProtocol__closed"
+    closedl = closed + [("closing-flag-set", "self.__closing", "C14")]
+    R.contract(
+        "DatagramListenerSocketAdapter.aclose", self_shape="DatagramListenerSocketAdapterC",
+        ensures=closedl + [("returns-only-once-the-connection-is-really-gone", f"not {futl}.pending", "C14")],
+        raises={"BaseException": closedl},
+        modifies=["self.__closing", "self.__transport.closing", f"{futl}.pending", f"{futl}.result_set", f"{futl}.exception_set", f"{futl}.value", "ghost.futures_awaited"],
+        env={"rely_havoc": [f"{futl}.pending", f"{futl}.result_set", f"{futl}.exception_set"], "rely_inv": ["implies(pre(self.__transport.closing), self.__transport.closing)"]},
+        tags="C14",
+    )
